@@ -1,3 +1,81 @@
 import Driver.Common
-/-! Model driver for C15 — not built yet. -/
-def main (_args : List String) : IO Unit := pure ()
+import Logrange.Model.Provider
+import Logrange.Generated.C15
+/-! Model driver for C15 (cursor provider cache + CLElement ring). Requests:
+
+* `reset <maxCurs> <idleTo> <busyTo>`          — empty provider with these knobs, clock 0
+* `get <id> <query> <pos> <posOk 0|1> <kind ok|poserr|nosrc> <cache 0|1> <newCur> <newId>` — `GetOrCreate`, not interleaved
+      → `refused` | `old <c>` | `new <c>` | `empty` | `error` | `nilderef`
+* `lookup <id> <query> <pos> <posOk>`          → `refused|hit <c>|applyfail|miss|noid|nilderef` + ` id=<id to go on with>`
+* `create <id> <query> <pos> <kind> <newCur> <newId>` → `cur <c>|empty|error`
+* `insert <c>`                                 → `cached|laterefused`
+* `release <c>`                                → `closed|idle|panic`
+* `age <d>`, `sweept`, `sweeps`                → `ok` | `panic`
+* `dump`                                       — the ring head first, map size, free pool
+* `closed <c>`                                 → `<acquired> <closed> <closeCalls> <held 0|1>`
+* `consts`                                     — the regenerated constants of NewProvider
+* `ring.append <cle> <chain>`, `ring.tearoff <r> <e|nil>`, `ring.prev <r> <e>`, `ring.next <r> <e>`,
+  `ring.nextfield <r> <e>`, `ring.len <r>`     — rings as comma lists, `-` = nil
+-/
+open Logrange Logrange.Provider Driver
+
+
+def parseRing (s : String) : List Nat :=
+  if s == "-" then [] else (s.splitOn ",").filterMap (·.toNat?)
+def showRing (r : List Nat) : String :=
+  if r.isEmpty then "-" else ",".intercalate (r.map toString)
+
+def parseKind (s : String) : CreateKind :=
+  if s == "poserr" then .posErr else if s == "nosrc" then .noSrc else .ok
+
+def showLookup : LookupRes → String
+  | .refused => "refused" | .hit c => s!"hit {c}" | .applyFail => "applyfail" | .miss => "miss" | .noId => "noid"
+  | .nilDeref => "nilderef"
+def showOutcome : Outcome → String
+  | .refused => "refused" | .old c => s!"old {c}" | .new c => s!"new {c}" | .empty => "empty" | .error => "error"
+  | .nilDeref => "nilderef"
+
+def n (s : String) : Nat := s.toNat?.getD 0
+
+def step (s : St) (toks : List String) : St × String :=
+  let chk := Logrange.Generated.C15.insertChecksExisting
+  let byId := Logrange.Generated.C15.releaseLooksUpById
+  match toks with
+  | ["reset", m, i, b] => (init (n m) (Int.ofNat (n i)) (Int.ofNat (n b)), "ok")
+  | ["get", id, q, pos, posOk, kind, cache, newCur, newId] =>
+    let (s', o) := getOrCreate chk s (n id) (n q) (n pos) (posOk == "1") (parseKind kind) (cache == "1") (n newCur) (n newId)
+    (s', showOutcome o)
+  | ["lookup", id, q, pos, posOk] =>
+    let (s', r, id') := lookup s (n id) (n q) (n pos) (posOk == "1")
+    (s', s!"{showLookup r} id={id'}")
+  | ["create", id, q, pos, kind, newCur, newId] =>
+    let (s', r) := create s (n id) (n q) (n pos) (parseKind kind) (n newCur) (n newId)
+    (s', match r with | .cur c => s!"cur {c}" | .empty => "empty" | .error => "error")
+  | ["insert", c] =>
+    let (s', r) := insert chk s (n c)
+    (s', match r with | .cached => "cached" | .lateRefused => "laterefused")
+  | ["release", c] =>
+    let (s', r) := release byId s (n c)
+    (s', match r with | .closed => "closed" | .idle => "idle" | .panic => "panic")
+  | ["age", d] => (age s (Int.ofNat (n d)), "ok")
+  | ["sweept"] =>
+    let s' := sweepByTime { s with panicked := false }
+    (s', if s'.panicked then "panic" else "ok")
+  | ["sweeps"] =>
+    let s' := sweepBySize { s with panicked := false }
+    (s', if s'.panicked then "panic" else "ok")
+  | ["dump"] => (s, dump s)
+  | ["closed", c] =>
+    let i := s.cursors (n c)
+    (s, s!"{i.acquired} {i.closed} {i.closeCalls} {if i.held then 1 else 0}")
+  | ["consts"] =>
+    (s, s!"maxCurs={Logrange.Generated.C15.maxCurs} idleTo={Logrange.Generated.C15.idleToSec} busyTo={Logrange.Generated.C15.busyToSec} freeCap={Logrange.Generated.C15.freePoolCap} modelFreeCap={freePoolCap}")
+  | ["ring.append", a, b] => (s, showRing (Ring.append (parseRing a) (parseRing b)))
+  | ["ring.tearoff", r, e] => (s, showRing (Ring.tearOff (parseRing r) (if e == "nil" then none else some (n e))))
+  | ["ring.prev", r, e] => (s, toString (Ring.prev (parseRing r) (n e)))
+  | ["ring.next", r, e] => (s, toString (Ring.next (parseRing r) (n e)))
+  | ["ring.nextfield", r, e] => (s, toString (Ring.nextField (parseRing r) (n e)))
+  | ["ring.len", r] => (s, toString (Ring.len (parseRing r)))
+  | _ => (s, "bad-op")
+
+def main (args : List String) : IO Unit := Driver.run step (init 3 60 300) args
